@@ -829,6 +829,21 @@ def parse_cstr(txt):
         else: out.append(ord(sx[i])); i+=1
     return out
 
+def min_feasible(pc,t):
+    """smallest (unsigned) value the term t can take under the path condition pc, or None if pc is infeasible.
+    Deterministic - a binary search over solver queries, not a solver-chosen model value - so that a re-executed path makes exactly the same
+    sequence of decisions as the execution that scheduled it (forking is by replaying a decision prefix)."""
+    sol=z3.Solver(); sol.add(*pc)
+    if sol.check()!=z3.sat: return None
+    lo=0; hi=sol.model().eval(t,model_completion=True).as_long()
+    while lo<hi:
+        mid=(lo+hi)//2
+        sol.push(); sol.add(z3.ULE(t,z3.BitVecVal(mid,t.size())))
+        if sol.check()==z3.sat: hi=min(mid,sol.model().eval(t,model_completion=True).as_long())
+        else: lo=mid+1
+        sol.pop()
+    return lo
+
 def explore(run, shared=None, limit=10000):
     """run(fork) executes the harness once under the decision prefix in fork['prefix']; returns per-path result"""
     pending=[[]]; results=[]; q=0
